@@ -159,7 +159,8 @@ pub fn run(args: &Args, mon: &mut Mon) -> (String, Vec<&'static str>) {
             });
             local
         });
-        if i < 4 {
+        if m.counter("histories_sampled") < 2 {
+            m.count("histories_sampled");
             m.sample(|| json!({"policy": format!("{pol:?}"), "config": format!("{cfg:?}"), "routes": all_routes(&pool).len(), "events": evs.iter().take(14).map(|e| format!("{e:?}")).collect::<Vec<_>>()}));
         }
         match out {
